@@ -84,6 +84,9 @@ let run (casefile : string) (obsfile : string) =
              let plain = dec (get "plain") in
              if List.filteri (fun i _ -> i < List.length enc) plain <> refp then fail "JUDGE" ol "plaintext is not the AES-CTR decryption of bytes 8.. under the nonce of bytes 5..6";
              let padded = dec (get "padded") in
+             if List.length plain > List.length padded then
+               fail "JUDGE" ol (Printf.sprintf "the record plaintext has %d bytes, more than the %d (padded) bytes of this payload: it holds bytes that are no decryption of it"
+                                  (List.length plain) (List.length padded));
              let padn = List.length padded - List.length enc in
              if not (padn >= 1 && padn <= 16 && List.length padded mod 16 = 0 &&
                      List.filteri (fun i _ -> i < List.length enc) padded = enc &&
